@@ -252,13 +252,68 @@ fn one_case(run: &Run, case: u64) {
     }
 }
 
+/// Scale: subtree selections in a version of more than 10 000 one-entry hunks, on both sides of
+/// the index-subdirectory boundary.
+fn many_hunks(run: &Run) {
+    let mut w = crate::history::many_hunks_world("c12big", run.seed);
+    // a directory whose entries are recorded beyond hunk 10 000
+    let mut spec = w.spec.clone();
+    spec.insert("/zdir".into(), Node::dir());
+    for n in ["a", "é", "z"] {
+        spec.insert(format!("/zdir/{n}"), Node::file(gen_content(&mut Rng::for_case(run.seed, 1, 1200), 9)));
+    }
+    w.set_spec(spec);
+    run.eval();
+    if !w.backup(crate::history::MANY_HUNKS_OPTS).backup.unwrap().clean() {
+        run.inconclusive("many-hunks backup not clean");
+        return;
+    }
+    let full = cs::list(cs::local(&w.arch), Some(0), "/", &[]);
+    let Some(full) = full.value() else {
+        run.violation("full-listing-failed", full.describe(), json!({"many_hunks": true}));
+        return;
+    };
+    let full_paths: Vec<&str> = full.iter().map(|e| e.apath.as_str()).collect();
+    if full_paths.len() != w.snap.len() {
+        run.violation("full-listing-differs-from-tree", format!("[10 040-file tree, 1 entry per hunk] listing has {} entries, the tree {}", full_paths.len(), w.snap.len()), json!({"many_hunks": true}));
+        return;
+    }
+    for s in ["/f00005", "/f09999", "/f10000", "/f10020", "/zdir", "/zdir/é", "/nonexistent"] {
+        let l = cs::list(cs::local(&w.arch), Some(0), s, &[]);
+        let want: Vec<&str> = full_paths.iter().copied().filter(|p| is_under(p, s)).collect();
+        let got: Option<Vec<&str>> = l.value().map(|v| v.iter().map(|e| e.apath.as_str()).collect());
+        run.count("subtree_listings_compared", 1);
+        if got.as_ref() != Some(&want) {
+            run.violation("subtree-listing-differs-from-filtered-full-listing", format!("[10 040-file tree, 1 entry per hunk] subtree {s}: listed {got:?}, the full listing filtered gives {want:?}"), json!({"many_hunks": true}));
+            return;
+        }
+    }
+    let dest = w.sc.fresh("sub");
+    let r = cs::restore(cs::local(&w.arch), Some(0), &dest, Some("/zdir"), &[], false);
+    let got = tree::snapshot(&dest).map(|s| s.keys().cloned().collect::<Vec<_>>()).unwrap_or_default();
+    run.count("subtree_restores_compared", 1);
+    if !r.clean() || got != vec!["/".to_string(), "/zdir".into(), "/zdir/a".into(), "/zdir/z".into(), "/zdir/é".into()] {
+        run.violation("subtree-restore-differs-from-full-restore", format!("[10 040-file tree, 1 entry per hunk] restore of /zdir: {} created {got:?}", r.describe()), json!({"many_hunks": true}));
+        return;
+    }
+    run.count("subtree_selections_in_a_version_with_more_than_10000_hunks", 8);
+}
+
 pub fn run(tier: Tier, replay: Option<Value>) -> i32 {
-    let run = Run::new("C12", "exploration", tier, replay);
-    run.par_cases(tier.pick(400, 30000), super::threads(), |c| one_case(&run, c));
+    let run = Run::new("C12", "exploration", tier, replay.clone());
+    if replay.as_ref().and_then(|r| r.get("many_hunks")).is_some() {
+        many_hunks(&run);
+        return run.finish("replay", &[], None, &[]);
+    }
+    if replay.is_none() {
+        super::alongside(&run, "the many-hunks selections", || many_hunks(&run), || run.par_cases(tier.pick(400, 30000), super::threads(), |c| one_case(&run, c)));
+    } else {
+        run.par_cases(tier.pick(400, 30000), super::threads(), |c| one_case(&run, c));
+    }
     run.finish(
-        "generated trees over names with multi-byte characters and siblings extending one another ('/a','/ab','/a.b','/a b','/é','/éa','/é.b','/日','/日本',...), depth <= 4; listing: S over EVERY entry of the tree plus non-existent paths (children, and names extended by 'é'/'0'): iter_entries(version, S) must equal the entries of the full listing that are S or lie under S by whole components, in order and unmodified — also for a version stitched from a second backup that was killed before one of its last writes after entries under several subtrees were removed and added; restoring: S over every directory: no error, everything under dest/S identical (bytes, mtime ns, mode, owner) to the same subtree of a full restore, and outside S nothing but the ancestor directories of S. Non-trivial = tree has a non-empty directory with a multi-byte name or a sibling extending another name.",
+        "generated trees over names with multi-byte characters and siblings extending one another ('/a','/ab','/a.b','/a b','/é','/éa','/é.b','/日','/日本',...), depth <= 4; listing: S over EVERY entry of the tree plus non-existent paths (children, and names extended by 'é'/'0'): iter_entries(version, S) must equal the entries of the full listing that are S or lie under S by whole components, in order and unmodified — also for a version stitched from a second backup that was killed before one of its last writes after entries under several subtrees were removed and added; restoring: S over every directory: no error, everything under dest/S identical (bytes, mtime ns, mode, owner) to the same subtree of a full restore, and outside S nothing but the ancestor directories of S. Also subtree listings and a subtree restore in a version of 10 040 files with one entry per hunk, for paths recorded on both sides of the index-subdirectory boundary. Non-trivial = tree has a non-empty directory with a multi-byte name or a sibling extending another name.",
         &["full listing and full restore are the reference (their own correctness is C01/C11)"],
         None,
-        &[("subtree_listings_compared", 200), ("stitched_subtree_listings_compared", 100), ("subtree_restores_compared", 50), ("trees_with_nonempty_multibyte_dir", 5), ("trees_with_sibling_extending_a_name", 5)],
+        &[("subtree_listings_compared", 200), ("stitched_subtree_listings_compared", 100), ("subtree_restores_compared", 50), ("trees_with_nonempty_multibyte_dir", 5), ("trees_with_sibling_extending_a_name", 5), ("subtree_selections_in_a_version_with_more_than_10000_hunks", 8)],
     )
 }
